@@ -24,4 +24,5 @@ def get_content_zip_internal_file(base_archive, target_file):
         return in_file.read()
 
 def list_of_zip_internal_files(zip_base_archive):
-    return zip_base_archive.namelist()
+    # an archive built from a folder also lists the folders themselves ('data/'): they are not files to read
+    return [a_name for a_name in zip_base_archive.namelist() if not a_name.endswith("/")]
